@@ -4,7 +4,9 @@ sys.path.insert(0, '/verif')
 from harness import common as C, run as R
 prop, tier = sys.argv[1], sys.argv[2] if len(sys.argv) > 2 else 'quick'
 mod = R.load_mod(prop)
-rng = random.Random(repr((0, prop, tier)))
+import os
+seed = int(os.environ.get('VERIF_SEED', '0') or 0)
+rng = random.Random(repr((seed, prop, tier)))
 cases = mod.gen(rng, tier)
 scratch = C.scratch_build()
 out = R.Outcome()
